@@ -60,3 +60,15 @@ Theorem C10_own_toml :
       slice_verdict d tj = Ok false -> slice_verdict d ty = Ok false -> toml_parses d = true ->
       snd (detect sched cutoff toml_parses tm tj ty (start (HSlice d))) = Ok (Some Toml).
 Proof. exact own_toml_detected. Qed.
+
+(* For MessagePack the trial's acceptance of xt's own output is not a premise:
+   every array- or map-rooted value rmp can encode within the depth limit is
+   accepted by the modelled trial, whatever follows it in the stream
+   (theories/MsgpackCodecProofs.v). *)
+From XtModel Require Import MsgpackCodecProofs.
+
+Theorem C10_own_msgpack_accepted :
+  forall (utf8_valid : bytes -> bool) (v : mval) (tail : bytes),
+    encodable utf8_valid v -> is_collection v = true ->
+    msgpack_matches utf8_valid (enc_val v ++ tail) = true.
+Proof. exact own_output_matches. Qed.
